@@ -439,8 +439,9 @@ func c14nlre(c *core.Ctx) {
 }
 
 // c14emptycomment: a line end right after a comment opener is the end of the (empty) comment.
-func c14emptycomment(c *core.Ctx) {
-	const R = "C14.emptycomment"
+func c14emptycomment(c *core.Ctx) { emptyCommentAs(c, "C14.emptycomment") }
+
+func emptyCommentAs(c *core.Ctx, R string) {
 	c.Rule(R, "for every state S that, on an ordinary byte, simply enters a line-scoped state T (no lexeme; T ends at the line end: its LF row pops the return state and emits NewLine) - the byte after a `#` opener - the LF row of S must also emit NewLine: a line end in that position is the end of an empty comment. If S consumed it as the first byte of the comment, the comment would run to the end of the NEXT line and swallow whatever is written there (`{ #⏎ \"a\": 1⏎}` loses the property a)")
 	c.Floor(R, 1)
 	n := 0
@@ -451,9 +452,14 @@ func c14emptycomment(c *core.Ctx) {
 			target := ""
 			ok := len(rows['a'].paths) > 0
 			for _, p := range rows['a'].paths {
-				if p.kind != "return" || p.next == "" || p.next == name || p.next == "<pop>" || p.next == "<dyn>" || len(p.finds) > 0 || len(p.pushes) > 0 || p.pops > 0 {
+				if p.kind != "return" || p.next == "" || p.next == name || p.next == "<pop>" || p.next == "<dyn>" || len(p.pushes) > 0 || p.pops > 0 {
 					ok = false
 					break
+				}
+				for _, f := range p.finds {
+					if !strings.HasSuffix(f, "TextBegin") {
+						ok = false
+					}
 				}
 				if target == "" {
 					target = p.next
@@ -476,7 +482,7 @@ func c14emptycomment(c *core.Ctx) {
 						nl = true
 					}
 				}
-				if nl && len(p.finds) == 1 && (p.pops > 0 || p.next == "<pop>") {
+				if nl && (p.pops > 0 || p.next == "<pop>" || p.next != "") {
 					lineScoped = true
 				}
 			}
